@@ -278,7 +278,7 @@ class _NullRec:
         pass
 
 
-UCLS_VARIANTS = ["plain", "own-dunders", "inherited-dunders", "dataclass"]  # variants that accept textX's _tx_* attributes
+UCLS_VARIANTS = ["plain", "own-dunders", "inherited-dunders", "dataclass", "falsy", "value-eq"]  # variants that accept textX's _tx_* attributes
 
 
 def draw_user_classes(t):
